@@ -46,6 +46,22 @@ def isconfigtype(obj: Any) -> bool:
     return inspect.isclass(obj) and issubclass(obj, ConfigType)
 
 
+def copy_default(value: Any) -> Any:
+    """
+    Copy a default value so that configurations never share mutable containers with each other
+    or with the schema. Only ``list`` and ``dict`` containers are copied (recursively); every
+    other object is returned as-is.
+
+    :param value: default value
+    :returns: the copied default value
+    """
+    if isinstance(value, list):
+        return [copy_default(item) for item in value]
+    if isinstance(value, dict):
+        return {key: copy_default(item) for key, item in value.items()}
+    return value
+
+
 class ValidationError(ValueError):
     """
     An error that occurs while validating a field's value or entire configuration.
